@@ -407,19 +407,19 @@ PROPS["C08"] = {'assumptions': ['registrations of one shard get distinct time st
  'engine': 'TestC08',
  'lean_modules': ['S2S.Props.C08'],
  'required_theorems': ['C08_identity_checked_registries',
-                       'C08_partial_no_crash',
+                       'C08_no_crash',
                        'C08_partial_cleanup_owns',
                        'C08_partial_all_done_empty',
                        'C08_partial_exact_at_quiescence',
                        'C08_partial',
                        'C08_refuted',
-                       'C08_refuted_unregister_double_delete',
-                       'C08_refuted_replay_send_on_closed_channel',
                        'C08_refuted_cleanup_check_then_remove',
                        'C08_refuted_stale_active_receiver',
                        'C08_refuted_late_start_of_older_incarnation',
                        'C08_refuted_overlapping_receiver_startups',
-                       'C08_refuted_before_fix'],
+                       'C08_refuted_before_fix',
+                       'C08_refuted_before_fix_unregister_double_delete',
+                       'C08_refuted_before_fix_replay_send_on_closed_channel'],
  'rule': 'traces of registry ops (open/open fail/break/pause/resume/wm/settle/end) against the real shardManagerImpl + two real '
          'adminServiceProxyServers in routing mode inside a synctest bubble, every trace in a child process (a panic or a stuck goroutine kills only '
          'the child and is the observation `crashed`/`leak n`). Deterministic scheduler: every proxy goroutine is held at its next schedule point '
@@ -430,6 +430,8 @@ PROPS["C08"] = {'assumptions': ['registrations of one shard get distinct time st
          "with 3-4 incarnations over two shards, up to two pauses per incarnation, open failures, settles. Every op's canonical view (which "
          'incarnation each of the five registries holds per shard, held workers, returned handlers, crash, leaked goroutines) is compared with the '
          'Lean model; the monitor (newest live incarnation registered at quiescence, clean-up steps remove only own entries, nothing left at the '
-         "end, handlers returned, no goroutine left, no crash) runs on the real code's view. A trace is non-trivial when it has more than 3 ops; "
-         'distinct by op list.',
+         "end, handlers returned, no goroutine left, no crash) runs on the real code's view; the monitor rules of the two repaired findings (second "
+         'delete of UnregisterShard, replay send on a closed channel) stay armed: their return is an unlisted VIOLATION. VERIF_C08_MODEL=asis '
+         'compares a checkout from before these two fixes with the old model (engine registry-asis). A trace is non-trivial when it has more than 3 '
+         'ops; distinct by op list.',
  'timeout': {'quick': 900, 'thorough': 7200}}
